@@ -989,10 +989,8 @@ class Client():
 
         self.connector.tx(request)
 
-        if method is not None:
-            self.respondent.reinit(method=self.requester.method)
-        else:
-            self.respondent.reinit()  # reset code status reason
+        # respondent needs the method of the request in process (HEAD has no body)
+        self.respondent.reinit(method=self.requester.method)
 
     def redirect(self):
         """
